@@ -62,7 +62,12 @@ class Material:
         if s == "S2": return self.S[2]
         if s == "empty": return b""
         if s == "trunc": return s1[:len(s1) - 1 - (v % max(1, len(s1) - 1))] if v else s1[:-1]
-        if s == "ext": return s1 + bytes([v % 256]) * (1 + v % 2)
+        if s == "ext":
+            # extension at the end, in front, or - both halves of an R||S pair zero-padded at their most significant end,
+            # which leaves the two integers as they were (fixed-length encodings must still refuse it)
+            k = 1 + v % 3
+            half = len(s1) // 2
+            return [s1 + bytes([v % 256]) * (1 + v % 2), bytes(k) + s1, bytes(k) + s1[:half] + bytes(k) + s1[half:], s1 + bytes(2 * k)][v % 4]
         o = bytearray(s1 or b"\x00")
         if v % 5 == 4:
             return bytes((b + 1 + v % 255) % 256 for b in o)       # all octets different (offset 1..255, never 0 mod 256)
@@ -227,6 +232,19 @@ def run(ctx: Ctx) -> None:
                 ctx.note_drift({"scenario": sig_of(sc, "reject"), "alg": alg, "reason": extra})
             else:
                 ctx.violation(sig_of(sc, what), {"scenario": sc, "alg": alg, "key_kind": kind, "variant": v, "observed": extra})
+    # several tokens in flight: split-API histories (JwsInFlight.tla) and two verifications interleaved at every source line
+    from . import inflight, c20
+    from .common import pmap
+    ctx.evaluations += inflight.run(ctx, "C01")
+    spairs = [(k, a, b, 1, ctx.seed, 20 if thorough else 4) for k in (("oct256", "EC:P-256", "RSA2048") if thorough else ("oct256", "EC:P-256"))
+              for a, b in (("verify_forged", "verify"), ("verify_forged", "verify2"), ("verify_forged", "verify_forged"), ("verify_forged", "sign"))]
+    for (kind, a, b, na, nb), n, found in pmap(c20.explore, spairs, chunksize=1, procs=8):
+        ctx.evaluations += n
+        ctx.nontrivial.add(f"sched:{kind}:{a}|{b}")
+        for pr, pre, first in found[:3]:
+            ctx.violation(f"jws:threads {a}||{b} [{kind}] -> {pr.split(':', 1)[-1].strip().split(' and returned')[0][:70]}",
+                          {"kind": kind, "ops": [a, b], "preempts": pre, "first": first, "problem": pr})
+    _pool_init()
     for sc in scs:
         ctx.nontrivial.add(json.dumps(sc, sort_keys=True))
     if nok < 1000:
@@ -247,6 +265,16 @@ def run(ctx: Ctx) -> None:
 def replay(ctx: Ctx, rec: dict) -> None:
     from .common import _pool_init
     _pool_init()
+    if rec.get("inflight"):
+        from . import inflight
+        return inflight.replay(ctx, rec)
+    if "ops" in rec:
+        from . import c20
+        problems, _ = c20.run_schedule(rec["kind"], rec["ops"], [tuple(p) for p in rec["preempts"]], rec["first"])
+        print("ops", rec["ops"], "preempts", rec["preempts"], "-> problems now:", problems)
+        if problems:
+            ctx.violation(rec["signature"], {"problems": problems})
+        return
     sc = rec["scenario"]
     m = material(rec["alg"], rec["key_kind"], sc["raw"], sc["ep"] == "jwt")
     tok = assemble(sc, m, rec.get("variant", 0))
